@@ -1,5 +1,5 @@
 (* C10 — concurrent requests and block events behave as if executed one at a time.
-   Statements only (proofs: ConcTowerProofs.v, ConcBreach.v, ConcLin.v, ConcReg.v, ConcPurge.v, ConcCoarse.v, ConcDisc.v).  Model: ConcTower.v — the thread
+   Statements only (proofs: ConcTowerProofs.v, ConcBreach.v, ConcLin.v, ConcReg.v, ConcPurge.v, ConcCoarse.v, ConcDisc.v, ConcComm.v).  Model: ConcTower.v — the thread
    programs of register / add_appointment / get_appointment / get_subscription_info / block connected / block disconnected at
    lock-acquisition granularity, `run_sched` = all interleavings at EVENT granularity (every lock
    acquisition, release, action under locks and atomic height access is a step of its own).
@@ -35,6 +35,7 @@
                                                    final state are those of its run alone = of every sequential order
      C10_get_disconnect_linearizable, C10_getsub_disconnect_linearizable
                                                    reader || block disconnected: state and BOTH replies of a sequential order
+     C10_register_disconnect_linearizable          register || block disconnected: state and replies of a sequential order
      C10_coarse_runs_are_fine_runs                 every run_coarse execution (what the controlled scheduler replays) is a
                                                    run_sched execution: the theorems cover every run of the harness
      C10_coarse_configs_are_settled, C10_preemption_before_an_action_is_not_coarse
@@ -54,9 +55,14 @@
    OPEN (the exploration finds no reply of neither order there).
    OPEN (no proof, no counterexample; the exhaustive controlled exploration of the check finds every final
    state of these pairs equal to a sequential order within its preemption bound, up to the height stamps):
-     register || add, add || add (different appointment), register/add || disconnect,
-     register || the watcher's and the responder's part of a block. *)
-From TeosModel Require Import Base TxIndex Tower TowerInv Crash ConcTower ConcTowerProofs ConcBreach ConcLin ConcReg ConcPurge ConcCoarse ConcDisc.
+     register || add, add || add (different appointment), add || disconnect,
+     register || the watcher's and the responder's part of a block.
+   For these pairs "equal to a sequential order" can only hold modulo the ORDER OF ROWS in the gatekeeper's map and the
+   tables (gk_put moves the user to the front, INSERT appends): two threads that write different users / different
+   appointments leave the rows in the order of their critical sections, which need not be the order of either
+   sequential run (the check compares sorted rows).  A proof needs the model's look-ups to be invariant under row
+   permutation first; not attempted here. *)
+From TeosModel Require Import Base TxIndex Tower TowerInv Crash ConcTower ConcTowerProofs ConcBreach ConcLin ConcReg ConcPurge ConcCoarse ConcDisc ConcComm.
 From TeosModel Require Import TxIndexProofs.
 From Coq Require Import Permutation.
 From TeosModel.Gen Require Consts.
@@ -427,6 +433,30 @@ Example C10_disconnect_thread_is_prog_of_op :
   = [Some (TOut (OGetRes GetNotFound)); Some (TOut OBlockRes)].
 Proof. split; vm_compute; reflexivity. Qed.
 
+(* ---- register and a block disconnection ------------------------------------------------------------------------
+   register(u)  ||  block `hash` disconnected at height h: whatever the schedule, if both return, state and replies are
+   those of a sequential order - the one in which the registration's load of the gatekeeper's height and the
+   disconnection's store of it were executed.  (Everything else the two threads do touches disjoint fields of the tower
+   and commutes: ConcComm.first_actions_decide_the_order.)  No "modulo the stamp" is needed here: the registration
+   reads the height once and the disconnection writes it once. *)
+Theorem C10_register_disconnect_linearizable u hash h t0 sched tf oa ob :
+  run_sched t0 [register_p u; (disconnect_p hash h ;;; Ret tt) ;;; Ret OBlockRes] sched
+  = (tf, [Some (TOut oa); Some (TOut ob)]) ->
+  (forall s, oa <> OAbort s) -> (forall s, ob <> OAbort s) ->
+  (exists ta, exec (register_p u) t0 = Ok oa ta /\ exec ((disconnect_p hash h ;;; Ret tt) ;;; Ret OBlockRes) ta = Ok ob tf) \/
+  (exists tb, exec ((disconnect_p hash h ;;; Ret tt) ;;; Ret OBlockRes) t0 = Ok ob tb /\ exec (register_p u) tb = Ok oa tf).
+Proof. exact (first_actions_decide_the_order t0 _ _ sched tf oa ob (register_disconnect_decided u hash h)). Qed.
+
+(* non-vacuity: a new user registered while block 2001 (height 121) is disconnected: the height is stored before resp.
+   after the registration loads it - subscription start 120 resp. 121, both runs return *)
+Example C10_register_disconnect_instances :
+  let D := (disconnect_p 2001 121 ;;; Ret tt) ;;; Ret OBlockRes in
+  snd (run_sched w_trig [register_p 3; D] (repeat 1%nat 1 ++ repeat 0%nat 40 ++ repeat 1%nat 60))
+  = [Some (TOut (ORegisterRes (RegOk 10 120 520))); Some (TOut OBlockRes)] /\
+  snd (run_sched w_trig [register_p 3; D] (repeat 0%nat 3 ++ repeat 1%nat 1 ++ repeat 0%nat 40 ++ repeat 1%nat 60))
+  = [Some (TOut (ORegisterRes (RegOk 10 121 521))); Some (TOut OBlockRes)].
+Proof. vm_compute. split; reflexivity. Qed.
+
 (* ---- linearizability: what is refuted ----------------------------------------------------------------- *)
 
 (* get_appointment || add_appointment whose dispute is already in the locator cache: the reader is told "appointment"
@@ -497,6 +527,7 @@ Print Assumptions C10_reader_purge_reply_not_linearizable.
 Print Assumptions C10_no_missed_breach_refined.
 Print Assumptions C10_get_disconnect_linearizable.
 Print Assumptions C10_getsub_disconnect_linearizable.
+Print Assumptions C10_register_disconnect_linearizable.
 
 (* non-vacuity of the refined hypotheses: the locator cache of the reachable state w_reg represents a window (it was
    built by ti_new from the bootstrap blocks), its capacity is positive, and block 2001 carrying locator 7 is valid *)
